@@ -612,9 +612,14 @@ func guardsOfR(b *ssa.BasicBlock, depth int, resolve bool) []Guard {
 				}
 			}
 			if o := opnds[k]; o != nil {
-				// the merged operand itself has the tested polarity on this way in
-				c, neg := StripNot(o)
-				alt = append(alt, Guard{Cond: c, True: out[i].True != neg, If: out[i].If})
+				if inner, isPhi := o.(*ssa.Phi); isPhi && !isBoolType(o.Type()) {
+					// the operand is itself a merge that is nil on some ways in: what holds on all the others
+					alt = append(alt, nonNilWayGuards(inner, depth+1, resolve)...)
+				} else {
+					// the merged operand itself has the tested polarity on this way in
+					c, neg := StripNot(o)
+					alt = append(alt, Guard{Cond: c, True: out[i].True != neg, If: out[i].If})
+				}
 			}
 			if k == 0 {
 				common = alt
@@ -644,6 +649,52 @@ func guardsOfR(b *ssa.BasicBlock, depth int, resolve bool) []Guard {
 		}
 	}
 	return out
+}
+
+// nonNilWayGuards returns the guards that hold on every way into phi over which its operand is not the nil constant
+// (recursively through operands that are such merges themselves).
+func nonNilWayGuards(phi *ssa.Phi, depth int, resolve bool) []Guard {
+	blk := phi.Block()
+	if blk == nil || depth > 4 || len(phi.Edges) != len(blk.Preds) {
+		return nil
+	}
+	var common []Guard
+	first := true
+	for i, e := range phi.Edges {
+		if isNilConst(e) {
+			continue
+		}
+		p := blk.Preds[i]
+		alt := guardsOfR(p, depth+1, resolve)
+		if len(p.Instrs) > 0 && len(p.Succs) == 2 && p.Succs[0] != p.Succs[1] {
+			if br, ok := p.Instrs[len(p.Instrs)-1].(*ssa.If); ok {
+				pol := p.Succs[0] == blk
+				c, neg := StripNot(br.Cond)
+				if neg {
+					pol = !pol
+				}
+				alt = append(alt, Guard{Cond: c, True: pol, If: br})
+			}
+		}
+		if inner, isPhi := e.(*ssa.Phi); isPhi {
+			alt = append(alt, nonNilWayGuards(inner, depth+1, resolve)...)
+		}
+		if first {
+			common, first = alt, false
+			continue
+		}
+		var keep []Guard
+		for _, g := range common {
+			for _, h := range alt {
+				if g.Cond == h.Cond && g.True == h.True {
+					keep = append(keep, g)
+					break
+				}
+			}
+		}
+		common = keep
+	}
+	return common
 }
 
 // flagPreds: if the guard tests a phi that merges boolean (or nil) constants,
@@ -722,6 +773,11 @@ func flagPredsR(g Guard, resolve bool) ([]*ssa.BasicBlock, []ssa.Value) {
 			} else if testedOnWay(blk.Preds[i], blk, e, false) {
 				sawConst = true
 				continue // this way in is behind `e == nil`
+			}
+			if inner, isPhi := e.(*ssa.Phi); isPhi && wantNonNil {
+				// a merge of merges: the caller may look further back for the ways on which it is not nil
+				preds, opnds = append(preds, blk.Preds[i]), append(opnds, inner)
+				continue
 			}
 			preds, opnds = append(preds, blk.Preds[i]), append(opnds, nil)
 			continue
